@@ -2,3 +2,4 @@ pub mod c05;
 pub mod c03;
 pub mod c04;
 pub mod c18;
+pub mod c06;
